@@ -552,6 +552,56 @@ def run(repo, outdir):
     out.append("/-- scanner.c `_yr_scanner_clean_matches`: `memset(strings_temp_disabled, 0, sizeof(YR_BITMASK) * YR_BITMASK_SIZE(rules-><field>))` -/")
     out.append('def cleanDisabledSizedBy : String := "%s"' % field)
     out.append("")
+    # --- configuration keys (libyara.c): which union member / pointer type yr_set_configuration and yr_get_configuration use per key,
+    #     and which keys the typed wrappers accept
+    def fn_body(name, text=libc):
+        m_ = re.search(r"YR_API\s+int\s+%s\s*\([^)]*\)\s*\{(.*?)\n\}" % name, text, flags=re.S)
+        return m_.group(1) if m_ else ""
+
+    def switch_groups(body, stmt_re):
+        """{key: captured groups of the first statement after its case labels}"""
+        res = {}
+        for m_ in re.finditer(r"((?:case\s+YR_CONFIG_\w+\s*:\s*)+)(.*?)(?=case\s+YR_CONFIG_|default\s*:)", body, flags=re.S):
+            keys = re.findall(r"case\s+(YR_CONFIG_\w+)", m_.group(1))
+            st = re.search(stmt_re, m_.group(2))
+            for k_ in keys:
+                res[k_] = st.groups() if st else None
+        return res
+
+    W = {"uint32_t": 32, "uint64_t": 64, "ui32": 32, "ui64": 64}
+    sets = switch_groups(fn_body("yr_set_configuration"), r"yr_cfgs\[name\]\.(\w+)\s*=\s*\*\s*\(\s*(\w+)\s*\*\s*\)\s*src\s*;")
+    gets = switch_groups(fn_body("yr_get_configuration"), r"\*\s*\(\s*(\w+)\s*\*\s*\)\s*dest\s*=\s*yr_cfgs\[name\]\.(\w+)\s*;")
+    typed = {}
+    for fn, bits in (("yr_set_configuration_uint32", 32), ("yr_set_configuration_uint64", 64), ("yr_get_configuration_uint32", 32), ("yr_get_configuration_uint64", 64)):
+        g_ = switch_groups(fn_body(fn), r"return\s+yr_[sg]et_configuration\s*\(\s*name\s*,")
+        for k_, v_ in g_.items():
+            if v_ is not None:
+                typed.setdefault(k_, {})[fn[3:6]] = bits
+    enum = re.search(r"typedef\s+enum\s+_YR_CONFIG_NAME\s*\{(.*?)\}", liby, flags=re.S)
+    keys = [k_ for k_ in re.findall(r"(YR_CONFIG_\w+)", enum.group(1)) if k_ != "YR_CONFIG_LAST"] if enum else []
+    if not keys:
+        unparsed.append("libyara.h YR_CONFIG_NAME")
+    rows = []
+    for idx, k_ in enumerate(keys):
+        s_, g_ = sets.get(k_), gets.get(k_)
+        ok = s_ and g_ and s_[0] in W and s_[1] in W and g_[0] in W and g_[1] in W
+        if not ok:
+            unparsed.append("libyara.c configuration key " + k_)
+            rows.append((k_, idx, 0, 0, 0, 0, 0, 0)); continue
+        rows.append((k_, idx, W[s_[0]], W[s_[1]], W[g_[1]], W[g_[0]], typed.get(k_, {}).get("set", 0), typed.get(k_, {}).get("get", 0)))
+    out.append("structure CfgKey where")
+    out.append("  name : String")
+    out.append("  idx : Nat")
+    out.append("  setMember : Nat      -- bits of the union member written by yr_set_configuration")
+    out.append("  setCast : Nat        -- bits read from *src")
+    out.append("  getMember : Nat      -- bits of the union member read by yr_get_configuration")
+    out.append("  getCast : Nat        -- bits written to *dest")
+    out.append("  typedSet : Nat       -- width of the yr_set_configuration_uintNN wrapper that accepts the key (0: none)")
+    out.append("  typedGet : Nat")
+    out.append("  deriving DecidableEq, Repr")
+    out.append("")
+    out.append("def cfgKeys : List CfgKey := [%s]" % ", ".join('⟨"%s", %d, %d, %d, %d, %d, %d, %d⟩' % r_ for r_ in rows))
+    out.append("")
     out.append("def unparsedItems : List String := [%s]" % ", ".join('"%s"' % u.replace('"', "'") for u in unparsed))
     out.append("")
     out.append("end YaraModel.Gen.Limits")
